@@ -177,17 +177,19 @@ def r09_2(ctx, m):
             continue
         b = tmpl.Builder(track_vars=[lv] + sorted(str_locals - {lv}))
         raw_ok = False
+        raw_vars = set()  # locals holding the line as read (possibly decoded / right-stripped)
         for e in p.events:
-            if e.kind == "stmt" and isinstance(e.node, ast.Assign) and norm(e.node.targets[0]) == lv:
+            if e.kind == "stmt" and isinstance(e.node, ast.Assign) and len(e.node.targets) == 1 and isinstance(e.node.targets[0], ast.Name):
+                tgt = e.node.targets[0].id
                 v = e.node.value
-                src = norm(v)
-                if isinstance(v, ast.Call) and isinstance(v.func, ast.Attribute) and v.func.attr == "readline":
-                    b.env[lv] = [("hole", ast.Name(id="RAW", ctx=ast.Load()), "raw")]
-                    raw_ok = True
+                is_raw = (isinstance(v, ast.Call) and isinstance(v.func, ast.Attribute) and v.func.attr == "readline") or (isinstance(v, ast.Name) and v.id in raw_vars) or any(_keeps_raw(v, rv) for rv in raw_vars | ({lv} if tgt == lv and lv in raw_vars else set()))
+                if is_raw:
+                    raw_vars.add(tgt)
+                    if tgt == lv:
+                        b.env[lv] = [("hole", ast.Name(id="RAW", ctx=ast.Load()), "raw")]
+                        raw_ok = True
                     continue
-                # decode / rstrip of the raw line keep it 'raw'
-                if _keeps_raw(v, lv):
-                    continue
+                raw_vars.discard(tgt)
             b.feed(e)
         t = b.env.get(lv)
         if t is None:
